@@ -203,6 +203,10 @@ def cases(tier, seed):
             add(cls='Union', d=d, member=member, cloud='face', splits=2, n=200, unit=True)        # cut by cube faces
             add(cls='Union', d=d, member=member, cloud='two', splits=1, n=160, unit=True)
         add(cls='Union', d=d, member='E', cloud='curved', splits=3, n=200, unit=False)
+    # members that keep some dimensions as cube dimensions and fit an ellipsoid in the others (column order of the mixture's sample)
+    for d in (3, 4):
+        for j in range(2):
+            add(cls='Union', d=d, member='M', cloud='box', splits=2, n=200, unit=True, npm=d + 20)
     # a broad mode with a sharp spike inside it: member volumes differ by ~10^3, the small member often gets none of the 1000 proposals of a round
     add(cls='Union', d=2, member='E', cloud='spike', splits=1, n=800, unit=True, n_samples=9000000, n_ref=1000000)
     for nets in (0, 1):
